@@ -1,7 +1,9 @@
 (* C20 - Admission seats one conforming client per seat and turns the others away.
    Only statements, each closed by [exact]; proofs are in the files imported below. *)
-From BE Require Import Model.Session Model.SessionTie Spec.SessionSpec Proofs.Kahn Proofs.Session Proofs.SessionExamples.
+From BE Require Import Model.Session Model.SessionTie Spec.SessionSpec Proofs.Kahn Proofs.Session Proofs.SessionExamples Proofs.SessionPassOut Proofs.Wire Proofs.SessionAdmission.
+From BE Require Import Gen.Skeleton Proofs.SkeletonPin.
 From Coq Require Import ZArith.
+Local Open Scope string_scope.
 Local Open Scope nat_scope.
 Local Open Scope list_scope.
 
@@ -39,6 +41,12 @@ Theorem C20_canonical_run_is_a_run :
 Proof. exact canonical_run_sound. Qed.
 Print Assumptions C20_canonical_run_is_a_run.
 
+(* the synchronisation skeleton of server.py, re-extracted from the source on this run, is the one the session model was written against *)
+Theorem C20_server_skeleton_is_the_modelled_one :
+  server_skeleton = pinned_server_skeleton.
+Proof. exact server_skeleton_pinned. Qed.
+Print Assumptions C20_server_skeleton_is_the_modelled_one.
+
 (* a request is turned away exactly for a wrong protocol version, a seat already taken, or a team name different from the seated partner's *)
 Theorem C20_rejected_iff :
   forall tbl team p ver,
@@ -66,6 +74,80 @@ Theorem C20_completes :
 Proof. exact all_seated_eventually. Qed.
 Print Assumptions C20_completes.
 
+(* the table reached seats, in every seat, exactly the FIRST request for it that was acceptable when it was looked at; every other request for that seat that was looked at was turned away *)
+Theorem C20_first_acceptable_request_per_seat :
+  forall reqs, all_seated (seat_requests reqs empty_table) = true ->
+  forall p, exists j a,
+    nth_error reqs j = Some a /\ a_seat a = p /\ j < looked_at reqs empty_table /\
+    admission_error (table_before reqs j) (a_team a) (a_seat a) (a_version a) = None /\
+    seat_requests reqs empty_table p = Some (a_team a) /\
+    conn_map reqs p = j /\
+    (forall j' a', nth_error reqs j' = Some a' -> a_seat a' = p -> j' < looked_at reqs empty_table -> j' <> j ->
+       admission_error (table_before reqs j') (a_team a') (a_seat a') (a_version a') <> None).
+Proof. exact table_seats_first_acceptable. Qed.
+Print Assumptions C20_first_acceptable_request_per_seat.
+
+(* FULL, symbolic and unbounded, at the level of the thread network: for EVERY list of requests (any seats, teams, versions, order, length; no hypothesis) there is a schedule after which main has run the accept loop over exactly the requests it looks at and every connection is in the state its outcome prescribes *)
+Theorem C20_admission_network_any :
+  forall x : session,
+  let reqs := s_arrivals x in
+  let n := nconn x in
+  reach (init_state x) (fun f =>
+    shape n f /\
+    pr f 0 = Some (wrap (s_interrupt x) n
+                     (admission n (seq (looked_at reqs empty_table) (n - looked_at reqs empty_table))
+                        (final_table reqs) (conn_map reqs) (after_admission n (s_boards x)))) /\
+    forall j a, nth_error reqs j = Some a ->
+      loc n f j = final_view n (length (s_boards x)) j a (script_of x j) (outcome_of reqs empty_table j)).
+Proof. exact admission_phase_any. Qed.
+Print Assumptions C20_admission_network_any.
+
+(* when the requests fill the table: every request looked at and turned away got exactly its error line and was closed, its thread returned, its client failed; every seated one got exactly its seated line; the requests after the table was full were never looked at *)
+Theorem C20_admission_network :
+  forall x : session,
+  let reqs := s_arrivals x in
+  let n := nconn x in
+  let nb := length (s_boards x) in
+  wf_requests reqs ->
+  all_seated (seat_requests reqs empty_table) = true ->
+  reach (init_state x) (fun f =>
+    pr f 0 = Some (wrap (s_interrupt x) n (after_admission n (s_boards x) (seat_requests reqs empty_table) (conn_map reqs))) /\
+    (forall j a, nth_error reqs j = Some a ->
+       (forall e, j < looked_at reqs empty_table ->
+                  admission_error (table_before reqs j) (a_team a) (a_seat a) (a_version a) = Some e ->
+                  loc n f j = turned_view a e) /\
+       (j < looked_at reqs empty_table ->
+        admission_error (table_before reqs j) (a_team a) (a_seat a) (a_version a) = None ->
+        loc n f j = seated_view n nb j a (script_of x j)) /\
+       (looked_at reqs empty_table <= j -> loc n f j = waiting_view n nb j a (script_of x j))) /\
+    shape n f).
+Proof. exact admission_phase. Qed.
+Print Assumptions C20_admission_network.
+
+(* and then all four are told both team names (the names of the table) and the first board is about to start - for any boards and scripts *)
+Theorem C20_seating_network :
+  forall x : session,
+  let reqs := s_arrivals x in
+  let n := nconn x in
+  let nb := length (s_boards x) in
+  let T := seat_requests reqs empty_table in
+  wf_requests reqs ->
+  all_seated T = true ->
+  reach (init_state x) (fun f =>
+    pr f 0 = Some (wrap_open (s_interrupt x) n (boards_loop n (conn_map reqs) (names_of T) (s_boards x) 1)) /\
+    (forall j a, nth_error reqs j = Some a ->
+       (forall e, j < looked_at reqs empty_table ->
+                  admission_error (table_before reqs j) (a_team a) (a_seat a) (a_version a) = Some e ->
+                  loc n f j = turned_view a e) /\
+       (j < looked_at reqs empty_table ->
+        admission_error (table_before reqs j) (a_team a) (a_seat a) (a_version a) = None ->
+        loc n f j = started_view n nb j a (script_of x j) (names_of T North) (names_of T East)) /\
+       (looked_at reqs empty_table <= j -> loc n f j = waiting_view n nb j a (script_of x j))) /\
+    gshape n [MLog LOpen] 1 f).
+Proof. exact seating_phase. Qed.
+Print Assumptions C20_seating_network.
+
+(* with the confluence theorem above all maximal runs end in one final state, a continuation of the state reached by that schedule (transcripts are append-only) *)
 Theorem C20_independent_of_timing_partial :
   forall fuel x s sched,
   run_session fuel x = (s, sched, true) ->
@@ -73,6 +155,31 @@ Theorem C20_independent_of_timing_partial :
     (exists l'', srun l'' s' = Some s /\ length l' + length l'' = length sched) /\ (sfinal s' -> s' = s).
 Proof. exact every_schedule_reaches_canonical. Qed.
 Print Assumptions C20_independent_of_timing_partial.
+
+(* non-vacuity: eight requests - wrong version, duplicate seat, partner mismatch, one too late *)
+Theorem C20_example_premises :
+  wf_requests reqs8 /\ all_seated (seat_requests reqs8 empty_table) = true /\ looked_at reqs8 empty_table = 7 /\
+  map (outcome_of reqs8 empty_table) (seq 0 8) =
+    [ Turned "ERROR: Protocol version is not 18 but 17."; Seated; Turned "ERROR: Player North is already seated.";
+      Turned "ERROR: Team name ""Tigers"" is not same as partner's team name ""Lions""."; Seated; Seated; Seated; Waiting ] /\
+  map (conn_map reqs8) all_seats = [1; 4; 5; 6] /\
+  map (seat_requests reqs8 empty_table) all_seats = [Some "Lions"; Some "Bears"; Some "Lions"; Some "Bears"].
+Proof. exact premises_satisfiable. Qed.
+Print Assumptions C20_example_premises.
+
+Theorem C20_example_admission_instance :
+  forall boards scripts intr,
+  let x := mkSession boards reqs8 scripts intr in
+  reach (init_state x) (fun f =>
+    pr f 0 = Some (wrap intr 8 (after_admission 8 boards (seat_requests reqs8 empty_table) (conn_map reqs8))) /\
+    loc 8 f 0 = turned_view (mkArr North "Lions" 17) "ERROR: Protocol version is not 18 but 17." /\
+    loc 8 f 1 = seated_view 8 (length boards) 1 (mkArr North "Lions" 18) (script_of x 1) /\
+    loc 8 f 2 = turned_view (mkArr North "Tigers" 18) "ERROR: Player North is already seated." /\
+    loc 8 f 3 = turned_view (mkArr South "Tigers" 18) "ERROR: Team name ""Tigers"" is not same as partner's team name ""Lions""." /\
+    loc 8 f 6 = seated_view 8 (length boards) 6 (mkArr West "Bears" 18) (script_of x 6) /\
+    loc 8 f 7 = waiting_view 8 (length boards) 7 (mkArr East "Owls" 18) (script_of x 7)).
+Proof. exact admission_instance. Qed.
+Print Assumptions C20_example_admission_instance.
 
 (* non-vacuity: eight requests, four turned away *)
 Theorem C20_example_model_is_the_real_run :
